@@ -55,6 +55,7 @@ package spdxexp
 
 //@ func parse
 //@   modifies nothing
+//@   assert[C15] call scan#0: scansCallersString: arg0 == source
 //@   ensures[C03,C04] !isErr(result1) ==> result0 != nil
 //@   ensures[C04] isErr(result1) ==> result0 == nil
 //@   defines[C04] !isErr(result1) <==> V(source)
@@ -723,6 +724,8 @@ package spdxexp
 //@   ghostparam x Tree
 //@   ghostparam s string
 //@   modifies nothing
+//@   assert[C15] call parse#0: parsesCallersString: arg0 == testExpression
+//@   assert[C15] call stringsToNodes#0: parsesCallersList: arg0 == allowedList
 //@   assume call (*node).expand#0: forall t Tree {m(t)} :: m(t) <==> covered(t, allowedNodes)
 //@   assert[C07,scoped] call sortAndDedup#0: seedBefore: forall k {allowedList[k]} :: 0 <= k && k < len(allowedNodes) ==> occursTR(allowedNodes, 0, len(allowedNodes), allowedNodes[k].tree)
 //@   assert[C07,scoped] after sortAndDedup#0: sameSet: forall t Tree :: covered(t, allowedNodes) <==> coveredL(t, allowedList)
@@ -737,6 +740,7 @@ package spdxexp
 
 //@ func ExtractLicenses
 //@   modifies nothing
+//@   assert[C15] call parse#0: parsesCallersString: arg0 == expression
 //@   ensures[C04] isErr(result1) <==> !V(expression)
 //@   ensures[C04] isErr(result1) ==> result0 == nil
 //@   ensures[C06] !isErr(result1) ==> noDups(result0)
@@ -750,6 +754,7 @@ package spdxexp
 
 //@ func stringsToNodes
 //@   modifies nothing
+//@   assert[C15] call parse#0: parsesCallersEntry: arg0 == licenseStrings[$i0]
 //@   ensures[C03] !isErr(result1) ==> fresh(result0) && len(result0) == len(licenseStrings) && allLeaves(result0)
 //@   ensures[C04] isErr(result1) <==> (exists k :: 0 <= k && k < len(licenseStrings) && (!V(licenseStrings[k]) || K(licenseStrings[k])))
 //@   ensures[C04] isErr(result1) ==> result0 == nil
